@@ -12,6 +12,7 @@ import (
 
 // ---------- IDL type descriptors (compact syntax shared with the Lean driver and the orchestrator) ----------
 
+// Field syntax inside `r<kind><name>(…;…)`: `id,req,name,type[,default]`.
 type Ty struct {
 	K    byte // b y h i l d s x E S T L Z M
 	Name string
@@ -23,6 +24,13 @@ type Field struct {
 	Req  byte // r o d
 	Name string
 	Ty   *Ty
+	Dflt *VNode // IDL default value (5th item of the field syntax: value syntax with ':' for ';'), nil = none
+}
+
+// cmpDefault: the emitted IsSet<F>() of this field compares a NON-pointer Go field with a default —
+// the field is optional (or a union's) and its default is of base / enum / string / binary type.
+func (f *Field) cmpDefault(sd *StructDef) bool {
+	return (f.Req == 'o' || sd.Kind == 'u') && f.Dflt != nil && strings.IndexByte("tfngq", f.Dflt.K) >= 0
 }
 
 type StructDef struct {
@@ -83,10 +91,15 @@ func parseDefs(s string) *Defs {
 			body := item[lp+1 : len(item)-1]
 			if body != "" {
 				for _, f := range strings.Split(body, ";") {
-					p := strings.SplitN(f, ",", 4)
+					p := strings.SplitN(f, ",", 5)
 					id, _ := strconv.Atoi(p[0])
 					pos := 0
-					sd.Fields = append(sd.Fields, Field{ID: id, Req: p[1][0], Name: p[2], Ty: parseTy(p[3], &pos)})
+					fd := Field{ID: id, Req: p[1][0], Name: p[2], Ty: parseTy(p[3], &pos)}
+					if len(p) == 5 {
+						dpos := 0
+						fd.Dflt = parseVal(strings.ReplaceAll(p[4], ":", ";"), &dpos)
+					}
+					sd.Fields = append(sd.Fields, fd)
 				}
 			}
 			d.Structs[sd.Name] = sd
@@ -238,7 +251,15 @@ func assign(d *Defs, rv reflect.Value, t *Ty, v *VNode) {
 		sd := d.Structs[t.Name]
 		var target reflect.Value
 		if rv.Kind() == reflect.Ptr {
+			// a struct-like is made by its emitted constructor New<T>() — as every emitted reader does
+			// for nested structs — so that fields the value does not list hold their IDL defaults; the
+			// synthetic args/result structs have no registered constructor (zero literal, as emitted)
 			target = reflect.New(rv.Type().Elem())
+			if ctor, ok := ctors[t.Name]; ok {
+				if c := reflect.ValueOf(ctor()); c.Type() == rv.Type() {
+					target = c
+				}
+			}
 			rv.Set(target)
 			target = target.Elem()
 		} else {
@@ -328,6 +349,15 @@ func dump(d *Defs, rv reflect.Value, t *Ty) string {
 			case reflect.Slice, reflect.Map:
 				// optional containers/binary: nil means unset; required/default: nil is identified with empty
 				unset = fv.IsNil() && (f.Req == 'o' || sd.Kind == 'u')
+			}
+			if f.cmpDefault(sd) {
+				// non-pointer optional field with a default: "set" is what the emitted IsSet<F>() says
+				m := rv.Addr().MethodByName("IsSet" + rv.Type().Field(idx).Name)
+				if !m.IsValid() {
+					b.WriteString(fmt.Sprintf("%d=?noIsSet", f.ID))
+					continue
+				}
+				unset = !m.Call(nil)[0].Bool()
 			}
 			if unset {
 				continue
